@@ -60,6 +60,11 @@ class Config:
             cand = [i for i, f in enumerate(fields) if (k, f) not in LR_LIKE]
             for i in (r.sample(cand, r.randint(1, len(cand))) if cand else []):
                 h[i] = 0.0
+        if self.cross:
+            # copies restored on the OTHER backend are only `near` the original (last-bit differences of the kernels): keep
+            # the adaptive rules well conditioned there — no zero decay rate (beta2 = 0 / alpha = 0 / rho = 0 make the step
+            # g / (|g| + eps), which amplifies a last-bit difference without bound) and no tiny eps
+            h = [(0.9 if (v == 0.0 and (k, f) not in LR_LIKE) else (1e-3 if (f == "eps_" and v < 1e-3) else v)) for v, f in zip(h, fields)]
         L.append(("opt 0 %s %s" % (k, " ".join(f2x(v) for v in h))).strip())
         self.h = h
         # settings: scaling, decay, clipping, epoch
